@@ -146,8 +146,6 @@ TEMPLATES = {
                       [("u8", 127), ("u8", 3), ("i16", 16383), ("i64", 10)], m_twice, uses=("inc",)),
     "sum": Template("sum", [("T", "type")], [("xs", "...T")], "T", "t : T = 0; i := 0; while i < xs.len { t = t + xs[i]; i += 1; } t",
                     [("u8", 200, 100), ("u8", 1, 2, 3), ("i32", -4, 9), ("i64", 5)], m_sum),
-    "ct": Template("ct", [("n", "i64")], [], "i64", "k :: comptime { n * 3 }; k + 1",
-                   [(0,), (2,), (-5,), (1000000,)], m_ct),
     "field": Template("field", [("S", "type")], [("s", "S")], "i32", "s.a * 10 + s.b",
                       [("P2", "P2.{ a = 1, b = 2 }"), ("P3", "P3.{ a = 3, b = 4, c = 5 }"), ("P2", "P2.{ a = 7, b = 8 }")],
                       lambda t: {"P2.{ a = 1, b = 2 }": 12, "P3.{ a = 3, b = 4, c = 5 }": 34, "P2.{ a = 7, b = 8 }": 78}[t[1]]),
